@@ -79,19 +79,24 @@ impl<'a> Assigned<'a> {
     }
     fn touch(&mut self, place: &syn::Expr) {
         if let Some(mut r) = root_var(place) {
-            // follow pattern bindings to the variable they refer into
+            // follow pattern bindings to the variable they refer into; a binding that shadows the variable it refers
+            // into (`if let Some(x) = x`) continues with the outer `x`
+            let mut limit = self.scopes.len();
             for _ in 0..64 {
-                match self.lookup(&r) {
+                let found = (0..limit).rev().find_map(|i| self.scopes[i].get(&r).cloned().map(|v| (i, v)));
+                match found {
                     None => {
                         self.out.insert(r);
                         return;
                     }
-                    Some(None) => return,
-                    Some(Some(p)) => {
+                    Some((_, None)) => return,
+                    Some((i, Some(p))) => {
                         if p == r {
-                            return;
+                            limit = i;
+                        } else {
+                            r = p;
+                            limit = self.scopes.len();
                         }
-                        r = p
                     }
                 }
             }
